@@ -7,6 +7,9 @@ for d in seeded/*/; do
   prop=$(python3 -c "import json;m=json.load(open('$d/meta.json'));print(' '.join(m.get('detected_by') or [m['property']]))")
   if git -C /repo apply --check /verif/$d/patch.diff 2>/dev/null; then
     mutants/run.sh $d/patch.diff $prop 2>&1 | sed "s|^patch.diff|$name|" | cut -c1-200
+  elif [ -f $d/patch.ported.diff ] && git -C /repo apply --check /verif/$d/patch.ported.diff 2>/dev/null; then
+    # the same change re-made on the current code (a later fix commit touched the lines)
+    mutants/run.sh $d/patch.ported.diff $prop 2>&1 | sed "s|^patch.ported.diff|$name (ported)|" | cut -c1-200
   else
     echo "$name $prop SKIP: patch no longer applies to the current /repo (a later fix commit touched the same lines)"
   fi
